@@ -8,7 +8,7 @@ CONSTANTS
   FullLen = 2
   Core = {1, 3, 4, 5, 6, 8, 9, 11, 12, 21, 26, 30}
   Families = {"rich", "one", "rand"}
-  NRand = 8
+  NRand = 4
   RandSize = 9
 INVARIANT TreesOK
 INVARIANT T_Exist
